@@ -199,6 +199,8 @@ theorem tr_makeRef {e n} : Tr (makeRef e n) := by unfold makeRef; tr
 macro_rules | `(tactic| tr_lemma) => `(tactic| with_reducible exact tr_makeRef)
 theorem tr_envGet {e n} : Tr (envGet e n) := by unfold envGet; tr
 macro_rules | `(tactic| tr_lemma) => `(tactic| with_reducible exact tr_envGet)
+theorem tr_rootBindsFunc {n} : Tr (rootBindsFunc n) := by unfold rootBindsFunc; tr
+macro_rules | `(tactic| tr_lemma) => `(tactic| with_reducible exact tr_rootBindsFunc)
 theorem tr_envCreate {e n v} : Tr (envCreate e n v) := by unfold envCreate; tr
 macro_rules | `(tactic| tr_lemma) => `(tactic| with_reducible exact tr_envCreate)
 theorem tr_functionChanged {w o} : Tr (functionChanged w o) := by unfold functionChanged; tr
